@@ -1061,6 +1061,10 @@ def split_chained_assigns(fnode, base_names, stats):
       if isinstance(st, ast.Assign) and len(st.targets) == 2:
         names = [t for t in st.targets if isinstance(t, ast.Name) and t.id not in base_names]
         others = [t for t in st.targets if not (isinstance(t, ast.Name) and t.id not in base_names)]
+        if not names and sum(1 for t in st.targets if isinstance(t, ast.Name)) == 1:
+          # a name the reference knows, chained with an attribute: the same split (the attribute is stored, the name reads it back)
+          names = [t for t in st.targets if isinstance(t, ast.Name)]
+          others = [t for t in st.targets if not isinstance(t, ast.Name)]
         if len(names) == 1 and len(others) == 1 and _is_pure_chain(others[0]):
           a, x = others[0], names[0]
           load = copy.deepcopy(a)
@@ -2081,8 +2085,38 @@ def apply_partials(fnode, base_names, stats):
     if len(defs) != 1 or not _is_partial_call(defs[0].value):
       continue
     p = defs[0].value
-    if not all(isinstance(a, ast.Constant) for a in list(p.args[1:]) + [k.value for k in p.keywords]) or not isinstance(p.args[0], (ast.Name, ast.Attribute)):
+    if not isinstance(p.args[0], (ast.Name, ast.Attribute)) or any(isinstance(a, ast.Starred) for a in p.args) or any(k.arg is None for k in p.keywords):
       continue
+    if not all(isinstance(a, ast.Constant) for a in list(p.args[1:]) + [k.value for k in p.keywords]):
+      # bound arguments are evaluated once, when the partial is made: parameters / single-assignment locals stand for themselves, anything else
+      # is computed into a temporary at that point; the callee must be a method of self or a plain name (looked up the same way later)
+      f0 = p.args[0]
+      if not ((isinstance(f0, ast.Attribute) and isinstance(f0.value, ast.Name) and f0.value.id == 'self') or isinstance(f0, ast.Name)):
+        continue
+      stores_ = {}
+      for n_ in ast.walk(fnode):
+        if isinstance(n_, ast.Name) and isinstance(n_.ctx, (ast.Store, ast.Del)):
+          stores_[n_.id] = stores_.get(n_.id, 0) + 1
+      fparams = set(params_of(fnode))
+      blk_ = [b for b in _blocks(fnode) if defs[0] in b]
+      if not blk_:
+        continue
+      pre = []
+      for k_, a in enumerate(p.args[1:]):
+        stable = isinstance(a, ast.Constant) or (isinstance(a, ast.Name) and ((a.id in fparams and stores_.get(a.id, 0) == 0) or stores_.get(a.id, 0) == 1))
+        if not stable:
+          tmp = '__pa%d_%s' % (k_, nm)
+          pre.append(ast.copy_location(ast.Assign(targets=[ast.Name(id=tmp, ctx=ast.Store())], value=a), defs[0]))
+          p.args[1 + k_] = ast.Name(id=tmp, ctx=ast.Load())
+      for kw in p.keywords:
+        a = kw.value
+        stable = isinstance(a, ast.Constant) or (isinstance(a, ast.Name) and ((a.id in fparams and stores_.get(a.id, 0) == 0) or stores_.get(a.id, 0) == 1))
+        if not stable:
+          tmp = '__pk_%s_%s' % (kw.arg, nm)
+          pre.append(ast.copy_location(ast.Assign(targets=[ast.Name(id=tmp, ctx=ast.Store())], value=a), defs[0]))
+          kw.value = ast.Name(id=tmp, ctx=ast.Load())
+      i_ = blk_[0].index(defs[0])
+      blk_[0][i_:i_] = pre
     uses = _loads(fnode, nm)
     calls = [c for c in ast.walk(fnode) if isinstance(c, ast.Call) and isinstance(c.func, ast.Name) and c.func.id == nm]
     if not uses or len(calls) != len(uses):
